@@ -17,7 +17,15 @@ fn collect(servers: &mut Servers, kind: &str, expect: usize, held: &mut Vec<Requ
     let mut take = |rq: Request, urls: &mut Vec<Vec<u8>>, held: &mut Vec<Request>| {
         // a straggler of an earlier case's connection (parsed late from that connection's buffer) is not ours
         if mine.iter().any(|u| u.as_slice() == rq.url().as_bytes()) {
-            urls.push(rq.url().as_bytes().to_vec());
+            // the request must be the one that was sent: a method made of bytes of an earlier body is not it
+            let m = rq.method().as_str();
+            if m.len() > 16 || !m.bytes().all(|b| b.is_ascii_uppercase()) {
+                let mut u = b"BAD-METHOD:".to_vec();
+                u.extend_from_slice(rq.url().as_bytes());
+                urls.push(u);
+            } else {
+                urls.push(rq.url().as_bytes().to_vec());
+            }
             held.push(rq);
         } else {
             let _ = rq.respond(Response::from_string("stale"));
